@@ -224,6 +224,33 @@ def check(case):
                          f"at state {sname}{sdev or ''} moved by '{mname}'",
                          {"motion": mname, "state": sname, "dev": sdev, "resultant": _maxabs(r), "scale": sc})
 
+    # ---------------- a NEW stress-free reference given to the existing rod (set_reference_strains): the new reference must be
+    # stress-free, the old one strained; restoring the old reference restores the old behaviour
+    from vp.core.quiet import quiet
+
+    other = "straight" if case["ref"] != "straight" else "helix"
+    Q2 = np.asarray(R.reference(type(rod), case["nel"], other, seed), float)
+    with quiet():
+        rod.set_reference_strains(Q2.copy())
+    vals = ev.inv(Q2)
+    vals.update({"h(q,0)": ev.h(Q2)["h(q,0)"]})
+    for name, v in vals.items():
+        if name == "c(q,la_c)":
+            continue
+        e = _maxabs(v)
+        stats["max_ref_residual"] = max(stats["max_ref_residual"], e)
+        if not e <= TOL_ZERO:
+            fail(f"{name} at a reference set with set_reference_strains vs 0", f"|{name}| = {e:.3e} at the new reference '{other}'",
+                 {"new_reference": other, "value": e, "tol": TOL_ZERO})
+    with quiet():
+        rod.set_reference_strains(Q.copy())
+    vals = ev.inv(Q)
+    vals.update({"h(q,0)": ev.h(Q)["h(q,0)"]})
+    for name, v in vals.items():
+        if name != "c(q,la_c)" and not _maxabs(v) <= TOL_ZERO:
+            fail(f"{name} at the restored reference vs 0", f"|{name}| = {_maxabs(v):.3e} after set_reference_strains(new); set_reference_strains(old)",
+                 {"value": _maxabs(v), "tol": TOL_ZERO})
+
     return {
         "fails": list(fails.values()),
         "nontrivial": bool(strained and force_nonzero),
